@@ -204,7 +204,8 @@ def coreLoop (O : PyOracle) (lines : Lines) : Nat → Nat → PSt → PM PSt
                 let (ls, n) ← liftPy "extract_multiline_expression" (multiline lines.toList i (stmtCode (line.drop 2)))
                 match O.stmt (joinNl ls) with
                 | .ok => coreLoop O lines f (i + n) (s.modCur fun p => { p with execute := p.execute ++ [stmtTok (joinNl ls)] })
-                | .syntaxError ln => synErr (i + (match ln with | some k => k - 1 | none => 0)) "Invalid Python Syntax"
+                -- (Python also ends a line at a bare carriage return: its line count is kept on the statement's own lines)
+                | .syntaxError ln => synErr (i + (match ln with | some k => min (k - 1) (n - 1) | none => 0)) "Invalid Python Syntax"
                 | .tooComplex => synErr i "Python statement is too complex to parse"
                 | .miss => .error (.oracleMiss (joinNl ls))
               else if sw line "+ " || sw line "* " then
